@@ -1640,7 +1640,9 @@ def Mandatory(cls, **_kwargs):
                                     cls.get_type_name(), const.MANDATORY_SUFFIX)
     kwargs.update(_kwargs)
     if issubclass(cls, Unicode):
-        kwargs.update(dict(min_len=1))
+        # at least one character, without weakening what's already there.
+        kwargs['min_len'] = max(1, kwargs.get('min_len',
+                                                    cls.Attributes.min_len))
 
     elif issubclass(cls, Array):
         (k,v), = cls._type_info.items()
